@@ -56,6 +56,7 @@ Qed.
 Lemma restore_effect : forall c s,
   exists s', gen_restore c s = Ok s' /\
     s_packrat s' = k_packrat_enabled c /\ s_lr s' = k_recursion_enabled c /\ s_pcache s' = k_packrat_cache c /\
+    s_parse s' = k_packrat_parse c /\
     s_users s' = s_users s /\
     ((s_ws s' = s_ws s /\ s_builtins s' = s_builtins s) \/
      (s_ws s' = k_default_whitespace c /\ s_builtins s' = bsync (k_default_whitespace c) (s_builtins s))).
@@ -66,7 +67,8 @@ Proof.
 Qed.
 
 Lemma save_fields : forall s c, gen_save s = COk c ->
-  k_packrat_enabled c = s_packrat s /\ k_recursion_enabled c = s_lr s /\ k_packrat_cache c = s_pcache s.
+  k_packrat_enabled c = s_packrat s /\ k_recursion_enabled c = s_lr s /\ k_packrat_cache c = s_pcache s /\
+  k_packrat_parse c = s_parse s.
 Proof.
   intros s c H. destruct s. unfold gen_save in H. simpl in H.
   destruct s_packrat; [destruct s_pcache; simpl in H; try discriminate|]; inversion H; subst c; simpl; auto.
@@ -109,7 +111,22 @@ Qed.
 
 (* ---------------------------------------------------------------------------------------------------- *)
 (* C19_restore                                                                                           *)
-Definition with_block (body : list op) (w : world) : list op := OSave :: body ++ [ORestore (length (w_ctxs w))].
+Lemma step_restore_saved : forall w1 k c s0,
+  nth_error (w_ctxs w1) k = Some c -> gen_save s0 = COk c ->
+  exists s'', step (ORestore k) w1 = (mkWorld s'' (w_ctxs w1), None) /\ settings_of s'' = settings_of s0 /\
+              s_users s'' = s_users (w_st w1) /\ builtins_after_restore s0 (w_st w1) s''.
+Proof.
+  intros w1 k c s0 Hc H. destruct (restore_exact s0 c (w_st w1) H) as [s'' [R [A [B C]]]].
+  exists s''. simpl. rewrite Hc. unfold lift. rewrite R. simpl. auto.
+Qed.
+
+Lemma saved_ctx_stays : forall w body c, gen_save (w_st w) = COk c ->
+  nth_error (w_ctxs (run (OSave :: body) w)) (length (w_ctxs w)) = Some c.
+Proof.
+  intros w body c H. simpl. rewrite H. simpl.
+  destruct (run_ctxs body {| w_st := w_st w; w_ctxs := w_ctxs w ++ [c] |}) as [e He]. rewrite He. simpl.
+  apply nth_error_app_l. apply nth_error_snoc.
+Qed.
 
 Lemma with_block_restores : forall w body c,
   gen_save (w_st w) = COk c ->
@@ -120,14 +137,306 @@ Lemma with_block_restores : forall w body c,
   s_users (w_st w2) = s_users (w_st w1) /\
   builtins_after_restore (w_st w) (w_st w1) (w_st w2).
 Proof.
-  intros w body c H. unfold with_block.
+  intros w body c H w1 w2. subst w2. unfold with_block.
   change (OSave :: body ++ [ORestore (length (w_ctxs w))]) with ((OSave :: body) ++ [ORestore (length (w_ctxs w))]).
-  rewrite last_exn_snoc, run_app. simpl run at 3.
-  set (w1 := run (OSave :: body) w).
-  assert (Hc : nth_error (w_ctxs w1) (length (w_ctxs w)) = Some c).
-  { unfold w1. simpl. rewrite H. simpl.
-    destruct (run_ctxs body {| w_st := w_st w; w_ctxs := w_ctxs w ++ [c] |}) as [e He]. rewrite He. simpl.
-    apply nth_error_app_l. apply nth_error_snoc. }
-  simpl. rewrite Hc. destruct (restore_exact (w_st w) c (w_st w1) H) as [s'' [R [A [B C]]]].
-  unfold lift. rewrite R. simpl. auto.
+  rewrite last_exn_snoc, run_app. fold w1.
+  destruct (step_restore_saved w1 _ c (w_st w) (saved_ctx_stays w body c H) H) as [s'' [R [A [B C]]]].
+  change (run [ORestore (length (w_ctxs w))] w1) with (fst (step (ORestore (length (w_ctxs w))) w1)).
+  rewrite R. simpl. auto.
 Qed.
+
+(* ---------------------------------------------------------------------------------------------------- *)
+(* C19_exclusive: packrat and left recursion are never both enabled; packrat enabled => a real cache       *)
+Definition good_ctx (c : ctx) : Prop :=
+  k_packrat_enabled c && k_recursion_enabled c = false /\ (k_packrat_enabled c = true -> k_packrat_cache c <> PNull) /\
+  k_packrat_parse c = (if k_packrat_enabled c then ParseCache else ParseNoCache).
+Definition wgood (w : world) : Prop := good (w_st w) /\ Forall good_ctx (w_ctxs w).
+
+Ltac break_ifs :=
+  repeat match goal with
+         | |- context [if ?b then _ else _] => destruct b eqn:?; simpl
+         | |- context [match ?x with _ => _ end] => destruct x eqn:?; simpl
+         end.
+
+Ltac good_fin :=
+  simpl in *; repeat match goal with H : _ /\ _ |- _ => destruct H end;
+  try (split; [ first [reflexivity | assumption | congruence | idtac]
+              | split; [ first [assumption | (intros; first [discriminate | congruence | auto]) | idtac]
+                       | first [reflexivity | assumption | congruence | idtac] ] ]).
+
+Lemma enable_packrat_good : forall sz f s, good s -> good (result_state (gen_enable_packrat sz f s)).
+Proof.
+  intros sz f s G. destruct s. unfold good in *. unfold gen_enable_packrat. simpl in *.
+  destruct f, s_lr, s_packrat, sz; good_fin.
+Qed.
+
+Lemma enable_lr_good : forall sz f s, good s -> good (result_state (gen_enable_left_recursion sz f s)).
+Proof.
+  intros sz f s G. destruct s. unfold good in *. unfold gen_enable_left_recursion. simpl in *.
+  destruct f, s_lr, s_packrat, sz; simpl; break_ifs; good_fin.
+Qed.
+
+Lemma disable_good : forall s, good s -> good (result_state (gen_disable_memoization s)).
+Proof. intros s G. destruct s. unfold good in *. simpl in *. good_fin. Qed.
+
+Definition flags (s : state) := (s_packrat s, s_lr s, s_pcache s, s_parse s).
+Lemma good_flags : forall s s', flags s' = flags s -> good s -> good s'.
+Proof. unfold flags, good. intros s s' H G. inversion H. rewrite H1, H2, H3, H4. exact G. Qed.
+
+(* every operation that is not a memoization switch or a context operation leaves the three fields alone *)
+Lemma step_flags : forall o w,
+  match o with OPackrat _ _ | OLR _ _ | ODisable | OSave | ORestore _ | OCtxCopy _ => True
+  | _ => flags (w_st (fst (step o w))) = flags (w_st w) /\ w_ctxs (fst (step o w)) = w_ctxs w end.
+Proof.
+  intros o [s cs]. destruct o; auto; destruct s; simpl; try (split; reflexivity);
+    try (destruct n; simpl; split; reflexivity).
+  - destruct (nth_error s_users i); simpl; split; reflexivity.
+  - destruct (nth_error s_builtins i); simpl; split; reflexivity.
+Qed.
+
+Lemma step_good : forall o w, wgood w -> wgood (fst (step o w)).
+Proof.
+  intros o w [G C]. pose proof (step_flags o w) as F.
+  destruct o; try (split; [eapply good_flags; [apply F|exact G] | rewrite (proj2 F); exact C]); clear F.
+  - split; [apply enable_packrat_good; exact G | exact C].
+  - split; [apply enable_lr_good; exact G | exact C].
+  - split; [apply disable_good; exact G | exact C].
+  - (* OSave *) simpl. destruct (gen_save (w_st w)) eqn:S; simpl; [|split; assumption].
+    split; [exact G|]. apply Forall_app. split; [exact C|]. constructor; [|constructor].
+    destruct (save_fields _ _ S) as [A [B [D E]]]. unfold good_ctx. rewrite A, B, D, E. exact G.
+  - (* ORestore *) simpl. destruct (nth_error (w_ctxs w) i) eqn:N; simpl; [|split; assumption].
+    split; [|exact C].
+    destruct (restore_effect c (w_st w)) as [s' [R [A [B [D [E _]]]]]]. rewrite R. simpl.
+    assert (GC : good_ctx c). { eapply Forall_forall; [exact C|]. eapply nth_error_In; eauto. }
+    unfold good. rewrite A, B, D, E. exact GC.
+  - (* OCtxCopy *) simpl. destruct (nth_error (w_ctxs w) i) eqn:N; simpl; [|split; assumption].
+    split; [exact G|]. apply Forall_app. split; [exact C|]. constructor; [|constructor].
+    eapply Forall_forall; [exact C|]. eapply nth_error_In; eauto.
+Qed.
+
+Lemma run_good : forall ops w, wgood w -> wgood (run ops w).
+Proof. induction ops; simpl; intros; auto. apply IHops. apply step_good. assumption. Qed.
+
+Lemma initial_good : forall b, wgood (import_world b).
+Proof. intros. split; [|constructor]. unfold good. simpl. split; [reflexivity|split; [discriminate|reflexivity]]. Qed.
+
+Lemma exclusive_reachable : forall ops w, wgood w ->
+  s_packrat (w_st (run ops w)) && s_lr (w_st (run ops w)) = false.
+Proof. intros. apply (run_good ops w H). Qed.
+
+Lemma save_total : forall s, good s -> exists c, gen_save s = COk c.
+Proof.
+  intros s [_ [G _]]. destruct s. unfold gen_save. simpl in *.
+  destruct s_packrat; [destruct s_pcache; [exfalso; apply G; auto| |]|]; simpl; eexists; reflexivity.
+Qed.
+
+(* refusal without force: RuntimeError and nothing changes *)
+Lemma packrat_refused : forall sz s, s_lr s = true -> gen_enable_packrat sz false s = Raised RuntimeError s.
+Proof. intros sz s H. destruct s. simpl in H. subst. reflexivity. Qed.
+
+Lemma lr_refused : forall sz s, s_packrat s = true -> gen_enable_left_recursion sz false s = Raised RuntimeError s.
+Proof. intros sz s H. destruct s. simpl in H. subst. reflexivity. Qed.
+
+(* with force the other mode is switched off first *)
+Lemma packrat_forced : forall sz s, exists s', gen_enable_packrat sz true s = Ok s' /\
+  s_packrat s' = true /\ s_lr s' = false /\ s_parse s' = ParseCache /\
+  s_pcache s' = match sz with None => PUnbounded | Some n => PFifo n end.
+Proof. intros sz s. destruct s, sz; simpl; eexists; split; try reflexivity; simpl; auto. Qed.
+
+Lemma lr_forced : forall sz s,
+  let r := gen_enable_left_recursion sz true s in
+  s_packrat (result_state r) = false /\ s_parse (result_state r) = ParseNoCache /\
+  match sz with
+  | None => r = Ok (result_state r) /\ s_lr (result_state r) = true /\ s_memo (result_state r) = MUnbounded
+  | Some n => if (n >? 0)%Z then r = Ok (result_state r) /\ s_lr (result_state r) = true /\ s_memo (result_state r) = MLRU n
+              else r = Raised NotImplementedError (result_state r) /\ s_lr (result_state r) = false
+  end.
+Proof.
+  intros sz s. cbv zeta. destruct s, sz; unfold gen_enable_left_recursion; simpl; [destruct (z >? 0)%Z|]; simpl;
+    repeat split; reflexivity.
+Qed.
+
+(* enabling without force when the other mode is off *)
+Lemma packrat_plain : forall sz s, s_lr s = false -> s_packrat s = false -> exists s', gen_enable_packrat sz false s = Ok s' /\
+  s_packrat s' = true /\ s_lr s' = false /\ s_parse s' = ParseCache /\
+  s_pcache s' = match sz with None => PUnbounded | Some n => PFifo n end.
+Proof. intros sz s H1 H2. destruct s, sz; simpl in *; subst; simpl; eexists; split; try reflexivity; simpl; auto. Qed.
+
+(* ---------------------------------------------------------------------------------------------------- *)
+(* C19_whitespace_scope                                                                                  *)
+Lemma set_ws_effect : forall ch s,
+  gen_set_default_whitespace_chars ch s = Ok (set_s_builtins (bsync ch (s_builtins s)) (set_s_ws ch s)).
+Proof. intros. destruct s. reflexivity. Qed.
+
+Lemma new_expr_ws : forall s, gen_new_expr s = mkExpr (s_ws s) true.
+Proof. reflexivity. Qed.
+
+Lemma copy_expr_ws : forall e s,
+  gen_copy_expr e s = if e_copydef e then mkExpr (s_ws s) true else e.
+Proof. intros [w c] s. destruct c; reflexivity. Qed.
+
+Lemma set_whitespace_chars_effect : forall ch cd e, gen_set_whitespace_chars ch cd e = mkExpr ch cd.
+Proof. intros ch cd [w c]. reflexivity. Qed.
+
+Lemma nth_bsync : forall ch l i,
+  nth_error (bsync ch l) i = option_map (fun e => if e_copydef e then mkExpr ch true else e) (nth_error l i).
+Proof.
+  intros. unfold bsync. rewrite nth_error_map. destruct (nth_error l i) as [[w c]|]; simpl; auto. destruct c; reflexivity.
+Qed.
+
+(* the three whitespace-related components of a state *)
+Definition wsview (s : state) := (s_ws s, s_builtins s, s_users s).
+
+Lemma step_wsview : forall o w,
+  match o with OSetWs _ | ONew | OCopy _ | OCopyBuiltin _ | OSetWsOf _ _ _ | ORestore _ => True
+  | _ => wsview (w_st (fst (step o w))) = wsview (w_st w) end.
+Proof.
+  intros o [s cs]. destruct o; auto; destruct s; simpl; try reflexivity;
+    try (destruct n; reflexivity); unfold wsview;
+    try (unfold gen_enable_packrat, gen_enable_left_recursion; simpl; break_ifs; reflexivity).
+Qed.
+
+Lemma wsview_eq : forall a b, wsview a = wsview b ->
+  s_ws a = s_ws b /\ s_builtins a = s_builtins b /\ s_users a = s_users b.
+Proof. unfold wsview. intros a b H. inversion H. auto. Qed.
+
+Lemma replace_nth_other : forall {A} (l : list A) i j f, i <> j -> nth_error (replace_nth l i f) j = nth_error l j.
+Proof.
+  induction l; intros; simpl; auto. destruct i, j; simpl; auto; try congruence; try (apply IHl; congruence).
+Qed.
+
+(* an existing user expression is written by nothing but its own set_whitespace_chars *)
+Lemma step_user_kept : forall o w j e,
+  nth_error (s_users (w_st w)) j = Some e -> (forall ch cd, o <> OSetWsOf j ch cd) ->
+  nth_error (s_users (w_st (fst (step o w)))) j = Some e.
+Proof.
+  intros o w j e H NE. pose proof (step_wsview o w) as V.
+  destruct o; try (apply wsview_eq in V; destruct V as [V1 [V2 V3]]; rewrite V3; exact H); clear V.
+  - (* OSetWs *) destruct w as [s cs], s; simpl in *; exact H.
+  - (* ONew *) destruct w as [s cs], s; simpl in *. apply nth_error_app_l; exact H.
+  - (* OCopy *) destruct w as [s cs], s; simpl in *. destruct (nth_error s_users i); simpl; [apply nth_error_app_l|]; exact H.
+  - (* OCopyBuiltin *) destruct w as [s cs], s; simpl in *. destruct (nth_error s_builtins i); simpl; [apply nth_error_app_l|]; exact H.
+  - (* OSetWsOf *) destruct w as [s cs], s; simpl in *. rewrite replace_nth_other; [exact H|].
+    intro; subst. apply (NE chars cd). reflexivity.
+  - (* ORestore *) simpl. destruct (nth_error (w_ctxs w) i); [|exact H]. simpl.
+    destruct (restore_effect c (w_st w)) as [s' [R [_ [_ [_ [_ [U _]]]]]]]. rewrite R. simpl. rewrite U. exact H.
+Qed.
+
+Lemma run_user_kept : forall ops w j e,
+  nth_error (s_users (w_st w)) j = Some e -> Forall (fun o => forall ch cd, o <> OSetWsOf j ch cd) ops ->
+  nth_error (s_users (w_st (run ops w))) j = Some e.
+Proof.
+  induction ops; simpl; intros; auto. inversion H0; subst. apply IHops; auto. apply step_user_kept; auto.
+Qed.
+
+(* built-ins: either untouched, or resynchronised to the current default *)
+Definition builtins_inv (B0 : list expr_obj) (s : state) : Prop :=
+  s_builtins s = B0 \/ s_builtins s = bsync (s_ws s) B0.
+
+Lemma step_builtins_inv : forall B0 o w, builtins_inv B0 (w_st w) -> builtins_inv B0 (w_st (fst (step o w))).
+Proof.
+  intros B0 o w I. pose proof (step_wsview o w) as V. unfold builtins_inv in *.
+  destruct o; try (apply wsview_eq in V; destruct V as [V1 [V2 V3]]; rewrite V1, V2; exact I); clear V.
+  - (* OSetWs *) destruct w as [s cs], s; simpl in *. right. fold (bsync chars s_builtins).
+    destruct I as [I|I]; rewrite I; [reflexivity|apply bsync_bsync].
+  - destruct w as [s cs], s; exact I.
+  - destruct w as [s cs], s; simpl in *. destruct (nth_error s_users i); exact I.
+  - destruct w as [s cs], s; simpl in *. destruct (nth_error s_builtins i); exact I.
+  - destruct w as [s cs], s; exact I.
+  - (* ORestore *) simpl. destruct (nth_error (w_ctxs w) i); [|exact I]. simpl.
+    destruct (restore_effect c (w_st w)) as [s' [R [_ [_ [_ [_ [_ [[W B]|[W B]]]]]]]]]; rewrite R; simpl.
+    + rewrite W, B. exact I.
+    + right. rewrite W, B. destruct I as [I|I]; rewrite I; [reflexivity|apply bsync_bsync].
+Qed.
+
+Lemma run_builtins_inv : forall B0 ops w, builtins_inv B0 (w_st w) -> builtins_inv B0 (w_st (run ops w)).
+Proof. induction ops; simpl; intros; auto. apply IHops. apply step_builtins_inv. assumption. Qed.
+
+Lemma with_block_restores_builtins : forall w body c,
+  gen_save (w_st w) = COk c -> builtins_synced (w_st w) ->
+  s_builtins (w_st (run (with_block body w) w)) = s_builtins (w_st w).
+Proof.
+  intros w body c H Sy.
+  destruct (with_block_restores w body c H) as [_ [_ [_ B]]].
+  assert (I : builtins_inv (s_builtins (w_st w)) (w_st (run (OSave :: body) w))).
+  { apply run_builtins_inv. left. reflexivity. }
+  unfold builtins_synced in Sy. unfold builtins_after_restore in B. unfold builtins_inv in I.
+  destruct B as [[B1 B2]|B]; destruct I as [I|I].
+  - rewrite B2. exact I.
+  - rewrite B2, I, B1. exact Sy.
+  - rewrite B, I. exact Sy.
+  - rewrite B, I, bsync_bsync. exact Sy.
+Qed.
+
+(* ---------------------------------------------------------------------------------------------------- *)
+(* the pinned, unrepaired save/restore (old_save / old_restore): what it does restore, for all states       *)
+Lemma old_restore_partial : forall s c s', old_save s = COk c ->
+  let s'' := result_state (old_restore c s') in
+  s_ws s'' = s_ws s /\ s_kw s'' = s_kw s /\ s_lit s'' = s_lit s /\ s_verbose s'' = s_verbose s /\
+  (forall n, getattr_diag n s'' = getattr_diag n s) /\ s_users s'' = s_users s'.
+Proof.
+  intros s c s' H. cbv zeta. destruct s, s'. unfold old_save in H. simpl in H.
+  destruct s_packrat; [destruct s_pcache; simpl in H; try discriminate|]; inversion H; subst c; clear H;
+    unfold old_restore; simpl;
+    match goal with |- context [str_eqb ?a ?b] => destruct (str_eqb a b) eqn:E end; simpl; exec;
+    unfold gen_enable_packrat; simpl; break_ifs;
+    try (apply str_eqb_eq in E; subst);
+    repeat split; try reflexivity; intros n; destruct n; reflexivity.
+Qed.
+
+(* ---------------------------------------------------------------------------------------------------- *)
+(* statements as used by Props/C19.v                                                                     *)
+Lemma restore_full : forall (w : world) (body : list op) (c : ctx),
+  gen_save (w_st w) = COk c ->
+  last_exn (with_block body w) w = None /\
+  settings_of (w_st (run (with_block body w) w)) = settings_of (w_st w).
+Proof. intros w body c H. destruct (with_block_restores w body c H) as [A [B _]]. auto. Qed.
+
+Lemma save_total_reachable : forall pre b, exists c, gen_save (w_st (run pre (import_world b))) = COk c.
+Proof. intros. apply save_total. apply (run_good pre _ (initial_good b)). Qed.
+
+Lemma restore_reachable : forall (pre body : list op) (b : list expr_obj),
+  let w := run pre (import_world b) in
+  last_exn (with_block body w) w = None /\
+  settings_of (w_st (run (with_block body w) w)) = settings_of (w_st w).
+Proof. intros. destruct (save_total_reachable pre b) as [c H]. apply (restore_full w body c H). Qed.
+
+Lemma with_block_users : forall w body j e,
+  nth_error (s_users (w_st w)) j = Some e ->
+  Forall (fun o => forall ch cd, o <> OSetWsOf j ch cd) body ->
+  nth_error (s_users (w_st (run (with_block body w) w))) j = Some e.
+Proof.
+  intros w body j e H F. apply run_user_kept; auto. unfold with_block.
+  constructor; [discriminate|]. apply Forall_app. split; [exact F|]. constructor; [discriminate|constructor].
+Qed.
+
+Lemma exclusive_from_import : forall ops b,
+  let s := w_st (run ops (import_world b)) in s_packrat s && s_lr s = false.
+Proof. intros. apply exclusive_reachable. apply initial_good. Qed.
+
+Lemma exclusive_good : forall ops w, wgood w -> good (w_st (run ops w)).
+Proof. intros. apply (run_good ops w H). Qed.
+
+Lemma set_ws_scope : forall ch s, exists s',
+  gen_set_default_whitespace_chars ch s = Ok s' /\
+  s_ws s' = ch /\ s_users s' = s_users s /\ settings_of s' = settings_of (set_s_ws ch s) /\
+  (forall i, nth_error (s_builtins s') i =
+             option_map (fun e => if e_copydef e then mkExpr ch true else e) (nth_error (s_builtins s) i)).
+Proof.
+  intros ch s. eexists. split; [apply set_ws_effect|]. destruct s; simpl. repeat split; auto.
+  intros i. fold (bsync ch s_builtins). apply nth_bsync.
+Qed.
+
+Lemma builtins_scope : forall ops w,
+  let s' := w_st (run ops w) in
+  s_builtins s' = s_builtins (w_st w) \/ s_builtins s' = bsync (s_ws s') (s_builtins (w_st w)).
+Proof. intros. apply run_builtins_inv. left. reflexivity. Qed.
+
+Lemma restore_nested : forall (w : world) (b1 b2 b3 : list op) (c c1 : ctx),
+  gen_save (w_st w) = COk c ->
+  let w1 := run (OSave :: b1) w in
+  gen_save (w_st w1) = COk c1 ->
+  let body := b1 ++ with_block b2 w1 ++ b3 in
+  (last_exn (with_block b2 w1) w1 = None /\ settings_of (w_st (run (with_block b2 w1) w1)) = settings_of (w_st w1)) /\
+  (last_exn (with_block body w) w = None /\ settings_of (w_st (run (with_block body w) w)) = settings_of (w_st w)).
+Proof. intros. split; eapply restore_full; eauto. Qed.
